@@ -93,6 +93,25 @@ pub open spec fn refused(cur: BedEntry, next: Option<&BedEntry>, chrom_length: u
     ||| cur.start > cur.end
     ||| cur.start >= chrom_length
     ||| (next.is_some() && cur.start > next.unwrap().start)
+    // C02 (accepted => can be read back): the format cannot hold a (0,0) record (readers treat it as
+    // invalid) nor a NUL inside the NUL-terminated rest of the line
+    ||| (cur.start == 0 && cur.end == 0)
+    ||| has_nul_spec(cur.rest@)
+}
+pub open spec fn has_nul_spec(s: Seq<u8>) -> bool { exists|i: int| 0 <= i < s.len() && s[i] == 0 }
+/// `rest.contains('\0')` on the String (R11: rest is bytes here; U+0000 is the single byte 0 in UTF-8)
+fn has_nul(v: &Vec<u8>) -> (r: bool)
+    ensures r == has_nul_spec(v@)
+{
+    let mut i: usize = 0;
+    while i < v.len()
+        invariant i <= v.len(), forall|k: int| 0 <= k < i ==> v@[k] != 0,
+        decreases v.len() - i,
+    {
+        if v[i] == 0 { return true; }
+        i = i + 1;
+    }
+    false
 }
 pub open spec fn starts_sorted(s: Seq<BedEntry>) -> bool {
     forall|i: int, j: int| 0 <= i <= j < s.len() ==> (#[trigger] s[i]).start <= (#[trigger] s[j]).start
@@ -175,6 +194,7 @@ proof fn lemma_le_push(s: Seq<BedEntry>, x: BedEntry, b: u32)
 //@rule R2 min=1
 //@rule R1 min=1
 //@sub /format!\(.*?\)(?=\)\);)/ => err_msg() min=3
+//@sub /current_val\.rest\.contains\('\\0'\)/ => has_nul(&current_val.rest) min=0
 //@sub /IndexList<Value>/ => Overlap min=1
 //@sub /BBIDataProcessoringInputSectionChannel/ => SectionSink min=1
 //@sub /std::mem::replace\(/ => replace_vec( min=1
